@@ -195,10 +195,30 @@ def _mk_obj(design, d, built):
     raise ValueError(d)
 
 
-def _connect_all(design, mod, ns, built, how):
-    ncs = {}
+def _mult_arrays(design, mod, ns, built, ncs, place):
+    """Arrays written as `n * Target(**conns)`: the connections are made on a scalar instance which is then multiplied
+    (and stays behind, unnamed, in the back-references of whatever it was connected to)."""
+    done = set()
     for d in mod["decls"]:
-        if d[0] not in ("inst", "array", "pair"):
+        if d[0] != "array":
+            continue
+        try:
+            conns = {pname: mk_expr(e, ns, ncs, design, built) for pname, e in d[4]}
+        except KeyError:
+            # refers to an array declared later: that one is made the ordinary way
+            o = _mk_obj(design, d, built)
+        else:
+            o = d[3] * target_of(design, d[2], built)(**conns)
+            done.add(d[1])
+        place(d[1], o)
+        ns[d[1]] = o
+    return done
+
+
+def _connect_all(design, mod, ns, built, how, ncs=None, skip=()):
+    ncs = {} if ncs is None else ncs
+    for d in mod["decls"]:
+        if d[0] not in ("inst", "array", "pair") or d[1] in skip:
             continue
         conns = d[3] if d[0] in ("inst", "pair") else d[4]
         inst = ns[d[1]]
@@ -217,17 +237,27 @@ def build_module(design, mname, built):
     style = mod.get("style", "proc")
     name = mod.get("name")
 
+    mult = mod.get("array_form") == "mult"
+
     def body_proc(m, how):
         ns = {}
-        for d in mod["decls"]:
-            o = _mk_obj(design, d, built)
+
+        def place(nm, o):
             if mod.get("use_add"):
-                o.name = d[1]
+                o.name = nm
                 m.add(o)
             else:
-                setattr(m, d[1], o)
+                setattr(m, nm, o)
+
+        for d in mod["decls"]:
+            if mult and d[0] == "array":
+                continue
+            o = _mk_obj(design, d, built)
+            place(d[1], o)
             ns[d[1]] = o
-        _connect_all(design, mod, ns, built, how)
+        ncs = {}
+        skip = _mult_arrays(design, mod, ns, built, ncs, place) if mult else ()
+        _connect_all(design, mod, ns, built, how, ncs, skip)
         return ns
 
     if style == "proc":
@@ -236,8 +266,12 @@ def build_module(design, mname, built):
     elif style == "class":
         ns = {}
         for d in mod["decls"]:
-            ns[d[1]] = _mk_obj(design, d, built)
-        _connect_all(design, mod, ns, built, "call")
+            if not (mult and d[0] == "array"):
+                ns[d[1]] = _mk_obj(design, d, built)
+        ncs = {}
+        skip = _mult_arrays(design, mod, ns, built, ncs, lambda nm, o: None) if mult else ()
+        _connect_all(design, mod, ns, built, "call", ncs, skip)
+        ns = {d[1]: ns[d[1]] for d in mod["decls"]}  # declaration order, as written
         cls = type(name or "Anon", (), dict(ns))
         m = h.module(cls)
         if not name:
